@@ -138,6 +138,17 @@ def slices (n : Nat) : Nat → Bytes → List Bytes
   | _ + 1, [] => []
   | f + 1, b :: t => (b :: t).take n :: slices n f ((b :: t).drop n)
 
+/-- `n ≤ bound` when a bound is given -/
+def leOpt (n : Nat) : Option Nat → Bool
+  | some m => n ≤ m
+  | none => true
+
+/-- the chunks a `read_iter` hands out: every delivery, except the one a death string fired on -/
+def yielded (e : Option Exc) (ds : List Bytes) : List Bytes :=
+  match e with
+  | some (.death _ _) => ds.dropLast
+  | _ => ds
+
 def c03 (cfg : Cfg) (op : Op) (o : OpObs) : Bool :=
   let ds := delivered o
   match op with
@@ -157,9 +168,7 @@ def c03 (cfg : Cfg) (op : Op) (o : OpObs) : Bool :=
   | .readIter max _ k =>
     (match o.res with
      | .chunks cs e =>
-       cs == (match e with | some (.death _ _) => ds.dropLast | _ => ds)
-         && (match max with | some m => ds.flatten.length ≤ m | none => true)
-         && (match k with | some k => cs.length ≤ k | none => true)
+       cs == yielded e ds && leOpt ds.flatten.length max && leOpt cs.length k
      | _ => false)
     && boundedReqs cfg.chunk max 0 o.reads
   | .readline e _ =>
